@@ -76,6 +76,29 @@ class PyObj:
         return f"<{self.cls}>"
 
 
+class PyComp:
+    """the list built by `[f(x) for x in seq]` when f(x) is a Python-side object: length len(seq); the element at index k is the
+    object `elt` (built for the arbitrary index `j`) with j replaced by k.  Immutable (any mutation is unsupported)."""
+    def __init__(self, length, j, elt):
+        self.length = length
+        self.j = j
+        self.elt = elt
+
+    def at(self, k):
+        def sub(v):
+            if isinstance(v, PyObj):
+                return PyObj(v.cls, {f: sub(x) for f, x in v.fields.items()})
+            if isinstance(v, (PyList, PyTuple)):
+                return type(v)([sub(x) for x in v.items])
+            if isinstance(v, z3.ExprRef):
+                return z3.substitute(v, (self.j, k))
+            return v
+        return sub(self.elt)
+
+    def __repr__(self):
+        return f"[{self.elt!r} for {self.j} in range({self.length})]"
+
+
 class PyMap:
     """dict[int, str] (Tokenizer._lines and the local `lines` of get_lines)"""
 
@@ -238,6 +261,11 @@ def tok_fields(t):
             "end": PyTuple([Tok.el(t), Tok.ec(t)]), "line": Tok.line(t)}
 
 
+def same_obj(a, b) -> bool:
+    """Python `is` on modelled objects: copies of the heap made by the executor keep the identity of what they copy"""
+    return getattr(a, "origin", a) is getattr(b, "origin", b)
+
+
 def clone(v, memo):
     """deep copy of Python-side mutable structure; z3 terms are immutable and shared"""
     if isinstance(v, (PyObj, PyList, PyTuple, PyMap, PyCache, PyGen)):
@@ -245,6 +273,7 @@ def clone(v, memo):
             return memo[id(v)]
     if isinstance(v, PyObj):
         n = PyObj(v.cls, {})
+        n.origin = getattr(v, "origin", v)        # object identity survives copying the heap (path forks, the old() snapshot)
         memo[id(v)] = n
         n.fields = {k: clone(x, memo) for k, x in v.fields.items()}
         return n
